@@ -266,7 +266,7 @@ impl Expansion<'_> {
 
         match self.fields {
             syn::Fields::Unit => {
-                let ident = self.ident.to_string();
+                let ident = self.ident.unraw().to_string();
                 Ok(quote! {
                     derive_more::core::fmt::Formatter::write_str(
                         __derive_more_f,
@@ -276,7 +276,7 @@ impl Expansion<'_> {
             }
             syn::Fields::Unnamed(unnamed) => {
                 let mut exhaustive = true;
-                let ident_str = self.ident.to_string();
+                let ident_str = self.ident.unraw().to_string();
 
                 let out = quote! {
                     &mut derive_more::__private::debug_tuple(
@@ -322,7 +322,7 @@ impl Expansion<'_> {
             }
             syn::Fields::Named(named) => {
                 let mut exhaustive = true;
-                let ident = self.ident.to_string();
+                let ident = self.ident.unraw().to_string();
 
                 let out = quote! {
                     &mut derive_more::core::fmt::Formatter::debug_struct(
